@@ -164,7 +164,8 @@ pub enum Op {
     HMigrate { sender: u32, target: Target, code: u32, node: Node },
     HSend { sender: u32, to: Target, coins: Vec<CoinSpec> },
     /// update_block (set = false) or set_block (set = true): advance height and time
-    Block { set: bool, dh: u64, dt: u64 },
+    /// (`abs_h`: jump to an absolute height instead, e.g. 0 or u64::MAX; time never goes back)
+    Block { set: bool, dh: u64, dt: u64, #[serde(default)] abs_h: Option<u64> },
     /// write through App::contract_storage_mut
     External { target: Target, k: Bytes, v: Option<Bytes> },
     /// App-level query battery (purity, repeatability, agreement with the model)
